@@ -43,6 +43,11 @@ CHECKS = {
     text="index/fastIndex/index(MultiIndex)/both multiIndex variants/wrapThetaIndex are interpreted from source on every node of shapes nr 2..12 x ntheta (powers of two and not) x every split 0..nr: agreement, bijection onto 0..N-1, inversion, periodic wrap on both code paths. The functions are piecewise linear with predicates r<nsc and node<ncirc only, so the family realises every case. Split identities hold on every path of initializeLineSplitting (float comparisons forked both ways); the power-of-two flag is recomputed after every write of ntheta_; coarsening reads index 2i with sizes (nr+1)/2 and ntheta/2+1; constructors validate before use. Every array subscript met on the way is bounds-checked.",
     note="Trusted: clang front end, gmgir lowering, own IR interpreter (C integer semantics). Not decided: neighbour/spacing queries agreeing with coordinates as floating-point values.",
     ref="DESIGN.md section 4 / C17"),
+ "C18": dict(
+    level="other", technique="static analysis: taint analysis with bound-evidence over the grid generators; abstract interpretation of chooseNumberOfLevels; structural constructor/endpoint rules",
+    text="Decides the memory-safety and structural half: every integer in the grid generators that depends on the caller's parameters through a float->int conversion or unchecked arithmetic must carry a runtime lower and upper bound before it is used as an index offset, iterator advance or shift amount (asserts are compiled out); constructors validate after the last coordinate write; chooseNumberOfLevels (interpreted from source for nr 2..139 x ntheta 2..129 x level caps) implies coarseningGrid's precondition level by level and rejects fewer than two levels; end points are pinned to the exact boundary. Strict monotonicity, midpoint/nesting values and the text round trip are floating-point statements and are not decided.",
+    note="Trusted: clang front end, gmgir lowering, the taint rule's evidence vocabulary. The taint rule demands the presence of a runtime bound, not its arithmetic adequacy (adequacy of the repaired window was established once by an ASan/UBSan scan recorded in DESIGN.md).",
+    ref="DESIGN.md section 4 / C18"),
 }
 NA = {
  "C02": "order of accuracy is a limit statement about numerical error under refinement; no clause is visible in the shape of the code (its code-shaped preconditions are checked under C03/C10/C19)",
